@@ -232,8 +232,8 @@ theorem tail_slots_reserved (H : Bytes → Bytes) (sr : Final → Rcpt) (tmr : R
   · rw [ho]; exact ⟨by simp, by simp⟩
 
 /-- **the committed receipts root is the root of the Merkle calculator fed with the encoded receipts, in
-order, including the trailer** (`script.receipts_root = self.receipts.root()`). That the calculator computes
-the RFC-6962 binary Merkle root is C09's theorem; here it is compared with an independent MTH by the oracle. -/
+order, including the trailer** (`script.receipts_root = self.receipts.root()`). That this value is the RFC-6962
+binary Merkle root is `root_eq_mth_holds` / `root_eq_mth_receipts` in `Props/C28Root.lean`. -/
 theorem root_eq_mth_receipts_partial (H : Bytes → Bytes) (sr : Final → Rcpt) (tmr : Rcpt)
     (hsr : ∀ f, (sr f).kind = .scriptResult) (htmr : tmr.kind = .panic) (evs : List Ev) (hw : ∀ e ∈ evs, e.wf)
     (o : Outcome) (h : runEvents H sr tmr RCtx.empty 0 evs = .ok o) :
@@ -243,7 +243,8 @@ theorem root_eq_mth_receipts_partial (H : Bytes → Bytes) (sr : Final → Rcpt)
   · rw [ho] at h; cases h
     unfold RCtx.root; rw [hsy]
 
-/-- full statement of the root clause (needs C09: `calcRoot ∘ foldl calcPush = MTH`) -/
+/-- full statement of the root clause; proved for `mth := BMT.mth` in `Props/C28Root.lean` (`root_eq_mth_holds`) by composing
+with C09 -/
 def RootEqMthStatement (mth : (Bytes → Bytes) → List Bytes → Bytes) : Prop :=
   ∀ (H : Bytes → Bytes) (sr : Final → Rcpt) (tmr : Rcpt) (evs : List Ev) (o : Outcome),
     (∀ f, (sr f).kind = .scriptResult) → tmr.kind = .panic → (∀ e ∈ evs, e.wf) →
